@@ -12,7 +12,7 @@ trap 'rm -rf "$scratch"' EXIT
 missed=0
 for s in $seeds; do
   prop=${s%-*}
-  case $s in C07-1) props="C12";; *) props="$prop";; esac
+  case $s in C07-1) props="C12";; C03-6) props="C11";; C04-5) props="C17";; *) props="$prop";; esac
   rm -rf "$scratch/sarama"; mkdir -p "$scratch/sarama"
   rsync -a --exclude .git /repo/ "$scratch/sarama/"
   if ! (cd "$scratch/sarama" && patch -p1 -s --no-backup-if-mismatch < $root/seeded/$s/patch.diff); then
